@@ -46,6 +46,7 @@ func init() {
 		}
 		time.Sleep(50 * time.Millisecond)
 	}
+	bbolt.VerifPoint = func(kind uint8, obj uintptr, arg int) bool { return vsched.Point(vsched.Kind(kind), obj, arg) }
 	vsched.FlockHeld = func(path string) bool {
 		mu.Lock()
 		defer mu.Unlock()
